@@ -4,7 +4,7 @@ From Verif Require Import Base.Str Base.Py Base.Py2.
 Import ListNotations.
 Open Scope string_scope.
 
-(* saml2/config.py:Config.load_special (the else block in front of self.setattr, cut out by harness/c07.py:load_special_slice), lines 256-260 *)
+(* saml2/config.py:Config.load_special (the else block in front of self.setattr, cut out by harness/c07.py:load_special_slice), lines 257-261 *)
 Definition src2_load_special_value (v__val : pyval) : pyval :=
   (match p2_branch (p2_eq v__val (PStr "true")) with
    | BTrue => (let v__val := (PBool true) in
